@@ -205,6 +205,13 @@ def inverse_pair(ctx):
     g = run(getf, s)
     ctx.ob('INVERSE-PAIR', UC + '::get_in_units', 'get_in_units(set_in_units(v, u), u) = v for the same parsed factor', is_zero(g - v), 'composition = %s' % g, node=getf)
     ctx.ob('INVERSE-PAIR', UC + '::set_in_units', 'set_in_units multiplies by the parsed factor', is_zero(s - v * P), 'set = %s' % s, node=setf)
+    # the pair is an inverse pair only if converting leaves the caller's array as it was: get(set(x)) is compared with x itself
+    from .. import effects
+    for fn_ in (setf, getf, ctx.fn(UC, 'value_unit')):
+        pname = fn_.args.args[0].arg
+        muts, _eff = effects.param_mutations(fn_, {pname})
+        ctx.ob('INVERSE-PAIR', UC + '::' + fn_.name, 'the conversion does not write to the value it is given (np.asarray of a float array is the caller\'s array)', not muts,
+               '; '.join('%s (line %d)' % (w, n_.lineno) for n_, r_, w in muts), node=muts[0][0] if muts else fn_, key='no-mutate ' + fn_.name)
     parse = ctx.fn(UC, 'parse')
     for arg in (None, 'scaled'):
         e = _ev({'np': 'numpy'})
@@ -316,7 +323,8 @@ def precedence(ctx):
     ctx.floor('PRECEDENCE/patterns', npat, 121)
     ctx.ob('PRECEDENCE', loc, 'an expression without parentheses follows ordinary precedence (^ first, then * and / left to right) on all %d operator patterns up to 4 operators' % npat, not bad, '; '.join(bad[:3]), node=parse)
     cases = ['(m)', '((m))', 'eV/(angstrom*s)', 'kg*m/s^2', '(kg*m)/(s^2)', 'kg*(m/s)^2', 'eV/(angstrom*(s/(mol*K)))^2', '(m/s)/(kg/(mol*s))*K', ' kg * m\t/ s ^ 2 ', 'm^-2', '1/s', '1e-10*m', '0.5*(eV/angstrom^3)', 'GPa/(1.5*K)',
-             '((m*s)^2)^3', '(m)*(s)', 'm^(2)', '2.5', 'angstrom^3/mol*(K*(s))']
+             '((m*s)^2)^3', '(m)*(s)', 'm^(2)', '2.5', 'angstrom^3/mol*(K*(s))',
+             'm^0.5', 'GPa*m^0.5', 'm^-0.5', 'eV/angstrom^1.5', 'm^(1/2)', 'kg^(3/2)*s^-1.5']    # fracture toughness and the like: exponents are numbers, not only whole numbers
     badc = []
     for text in cases:
         got, want = run(text), _ref_parse(text, names)
@@ -324,7 +332,7 @@ def precedence(ctx):
             badc.append('%r -> %s, expected %s' % (text, got, want))
     ctx.ob('PRECEDENCE', loc, 'parenthesised groups (nested to any depth) are reduced first and enter as one operand; white space is ignored; numbers (signed, decimal, exponent) are factors (%d expressions)' % len(cases), not badc,
            '; '.join(badc[:3]), node=parse, key='groups')
-    ctx.floor('PRECEDENCE/groups', len(cases), 15)
+    ctx.floor('PRECEDENCE/groups', len(cases), 25)
     refused = ['(m', 'm)', '(m*(s)', 'm*s)', 'm s', 'm$', '(m)(s)', 'm*/s']
     acc = [t for t in refused if run(t) != 'raise']
     ctx.ob('PRECEDENCE', loc, 'malformed expressions are refused, not mis-evaluated: unmatched parenthesis either way, adjacent operands, unknown character, doubled operator', not acc, 'accepted: %s' % acc, node=parse, key='refusals')
